@@ -77,6 +77,18 @@ def eavSetup (be : Backend) (st : State) : Except Fault (State × Int) :=
     else if e.rfc == 3 then setup6531 be st e
     else .ok ({ st with obj := some { e with errcode := E.INVALID_RFC } }, (E.INVALID_RFC : Int))
 
+/-- `eav_setup` during which the creation of the idnkit resolver context fails with `r` (`idn_resconf_initialize` / `idn_resconf_create`
+inside `init_idn`).  Only the 6531 arm of an idnkit object that is not yet `initialized` reaches that call; there `init_idn` stores the
+library's message and returns the IDN error BEFORE the object is switched to UTF-8, so the mode confirmed earlier stays in force.  Everywhere
+else nothing is created and the call is an ordinary `eav_setup`. -/
+def eavSetupFail (be : Backend) (st : State) (r : Int) : Except Fault (State × Int) :=
+  match st.obj with
+  | none => .error .uninit
+  | some e =>
+    if be == .idnkit && e.rfc == 3 && !e.initialized then
+      .ok ({ st with obj := some { e with idnmsg := some r } }, -(E.IDN_ERROR : Int))
+    else eavSetup be st
+
 /-- the `switch (eav->result->rc)` of `eav_is_email`: TLD class → (errcode, allow_tld bit) -/
 def policyArm (rc : Int) : Option (Nat × Nat) :=
   if rc == 1 then some (E.TLD_NOT_ASSIGNED, 4)
@@ -160,6 +172,7 @@ inductive Op
   | setTld (b : Bool)
   | setMask (k : Nat)
   | setup
+  | setupFail (r : Int)                   -- `eav_setup` while the back end cannot create its context (idnkit), failing with `r`
   | isEmail (a : List Nat) (c : Conv)     -- `c`: what the IDN library answers if it is asked during this call
   | errstr
   | free
@@ -185,6 +198,9 @@ def step (be : Backend) (b : Build) (st : State) : Op → Except Fault (State ×
     | none => .error .uninit
     | some e => .ok ({ st with obj := some { e with allowTld := k } }, .unit)
   | .setup => match eavSetup be st with
+    | .error f => .error f
+    | .ok (s, rc) => .ok (s, .rc rc)
+  | .setupFail r => match eavSetupFail be st r with
     | .error f => .error f
     | .ok (s, rc) => .ok (s, .rc rc)
   | .isEmail a c =>
